@@ -323,14 +323,15 @@ def gen_program(rng, dim, opts=None):
         # (a BatchNorm after an excluded layer stays a module of its own and becomes the first
         # consumer of the layer's fixed width: mostly left out here, so that the searchable layer
         # below is the first one to see both widths)
-        a = b.conv(cur, cout=ca, keep_size=True, p_bn=.15)
-        c2 = b.conv(cur, cout=ca + rng.choice([1, 2]), keep_size=True, p_bn=.15)
+        forced = o.get('fixed_cat') == 'nested'
+        a = b.conv(cur, cout=ca, keep_size=True, p_bn=0 if forced else .15)
+        c2 = b.conv(cur, cout=ca + rng.choice([1, 2]), keep_size=True, p_bn=0 if forced else .15)
         for node in (a, c2):
             j = node
             while b.prog[j][0] not in ('conv',):
                 j -= 1
             b.prog[j][-1]._force_excl = True
-        if rng.random() < .5:
+        if forced or rng.random() < .5:
             # nested: the same operand position at both levels holds a fixed-width tensor
             inner = b.add(('cat', [c2, cur]), b.ch[c2] + b.ch[cur], b.sp[cur])
             cur = b.add(('cat', [a, inner]), b.ch[a] + b.ch[inner], b.sp[cur])
